@@ -84,4 +84,16 @@ PROPS = {
         test_clauses=["rounding of the f64 weighted sum (1e-12 relative)", "which weight vector reaches which quantity in Models (wiring)"],
         assumptions=[],
     ),
+    "C05": dict(
+        rule="caller-built ModelStreams through MlpgAdjust::new(1.0, 0.5, stream-without-GV).create(&durations): 1..60 states, durations 1..8 (or 1..2), "
+             "vector length 1..4, variances in [0.05,3], voicing patterns {all voiced, all unvoiced, random, islands of two states, islands of one state, "
+             "random weights} and non-MSD streams, window sets {static; +delta; +delta+delta-delta; width-5; asymmetric [-1,1,0]}. "
+             "class = (#windows, max width, voicing class, vector length); non-trivial = a voiced island of >= 2 frames and at least one dynamic window",
+        theorem_clauses=["frame -> state assignment by durations", "boundary distances = voiced run lengths; dynamic window ignored iff span touches unvoiced/edge",
+                         "fill: NODATA exactly on unvoiced frames", "banded LDL^T + substitutions solve A c = r for every length and band width (non-zero pivots)",
+                         "normal equations with precisions >= 0 imply maximum likelihood"],
+        test_clauses=["calcWuwWum assembles W'U^-1W and W'U^-1 mu (oracle: normal-equation residual built from the definition over absolute frames)",
+                      "pivots non-zero on every executed case", "rounding accuracy (residual <= 1e-8 of scale)"],
+        assumptions=["variances in the property's range (with_ivar's saturation branches are outside it)"],
+    ),
 }
